@@ -570,6 +570,21 @@ fn identity_catalogue() -> Vec<(&'static str, bool)> {
         ("is := (is: mut int, other: mut int) -> any { return (is == other, is != other, other == is); }; c := mut 1; is(c, c)", true),
         ("is := (is: mut int, other: mut int) -> any { return (is == other, is != other, other == is); }; c := mut 1; is(c, mut 1)", false),
         ("is := (is: any, other: any) -> any { return (is == other, is != other, other == is); }; f := () -> int { return 1; }; is(f, f)", true),
+        // function values made by executing one named declaration several times are several objects
+        ("make := (n: int) -> () -> int { get := () -> int { return n; }; return get; }; a := make(1); b := make(2); (a == b, a != b, b == a)", false),
+        ("make := (n: int) -> () -> int { get := () -> int { return n; }; return get; }; a := make(1); b := make(1); (a == b, a != b, [b] == [a])", false),
+        ("make := (n: int) -> () -> int { get := () -> int { return n; }; return get; }; a := make(1); b := a; (a == b, a != b, [b] == [a])", true),
+        ("make := (n: int) -> () -> int { get := () -> int { return n; }; return get; }; a := make(1); b := make(2); m := match a { (b) => true, => false, }; (m, !m, struct{f := a} == struct{f := b})", false),
+        ("mk := () -> any { m := mod { f := () -> int { return 1; }; }; return m.f; }; (mk() == mk(), mk() != mk(), (mk(), 1) == (mk(), 1))", false),
+        ("fs := mut [any] []; for i in [1, 2]~ { g := () -> int { return i; }; fs += [g]; }; ((*fs)[0] == (*fs)[1], (*fs)[0] != (*fs)[1], (*fs)[1] == (*fs)[0])", false),
+        // compounds that hold a cell or a function are compared again after the cell was assigned
+        ("m := mut 1; a := [m]; r := a == [m]; m = 2; (a == [m], a != [m], [m] == a)", true),
+        ("m := mut 1; a := [(m, 1)]; b := [(m, 1)]; r := a == b; m = 2; (a == b, a != b, b == a)", true),
+        ("m := mut 1; a := [struct{c := m}]; b := [struct{c := m}]; r := a == b; m += 5; (a == b, a != b, b == a)", true),
+        ("m := mut [int] [1]; a := [[m]]; r := a == [[m]]; m += [2]; (a == [[m]], a != [[m]], [[m]] == a)", true),
+        ("m := mut 1; n := mut 1; a := [m]; b := [n]; r := a == b; m = 2; n = 2; (a == b, a != b, b == a)", false),
+        ("m := mut 1; a := (m, [m]); r := a == (m, [m]); m = 2; s := a == (m, [m]); m = 1; (a == (m, [m]), !s, r)", true),
+        ("f := () -> int { return 1; }; a := [f]; r := a == [f]; (a == [f], a != [f], [f] == a)", true),
     ]
 }
 
